@@ -158,6 +158,16 @@ def run(res, tier, seed, broken_model):
         fam.append(("multi", tuple(("arr", x) for x in chain)))
         fam.append(("multi", tuple(("tup", (x, S_)) for x in chain)))
         fam.append(("multi", tuple(("fn", (("cell", x),), I_) for x in chain)))
+    # unions of three to seven tuple types of DIFFERENT lengths (function types of different arities): the queries that fold a
+    # minimum or a common length over the members (min_tuple_len, tuple_len, tuple_element_at, flatten_tuple, params) must
+    # not depend on which member is visited first or on what was visited before the shortest one
+    ELT = [I_, S_, F_, ("bool",), IF, ("arr", I_), ("void",)]
+    for lens in ((2, 3, 4), (4, 2, 3), (3, 2, 3), (2, 3, 3, 4), (5, 2, 4, 3), (2, 2, 3), (3, 4, 5, 2, 6), (4, 4, 2, 4, 3, 3, 5)):
+        tn = lambda n, k: ("tup", tuple([ELT[k]] * n))
+        fam.append(("multi", tuple(tn(n, k) for k, n in enumerate(lens))))
+        fam.append(("multi", tuple(("fn", tuple([ELT[k]] * n), I_) for k, n in enumerate(lens))))
+        fam.append(("cell", ("multi", tuple(tn(n, k) for k, n in enumerate(lens)))))
+        fam.append(("arr", ("multi", tuple(tn(n, k) for k, n in enumerate(lens)))))
     # unions in which one member makes a query answer "nothing" (a non-iterator among iterators, a non-tuple among tuples,
     # a non-function among functions, a non-cell among cells ..) next to members whose answers absorb everything (`any`):
     # a fold that stops early, or skips members once the accumulator is `any`, answers differently per visiting order
